@@ -28,7 +28,8 @@ MANIFEST = {
                  "two differential rigs",
     "design_ref": "5/C08",
 }
-MODULES = ["PrimaiteModel.Props.C08", "PrimaiteModel.Props.C08Forward"]
+MODULES = ["PrimaiteModel.Props.C08", "PrimaiteModel.Props.C08Forward", "PrimaiteModel.Lemmas.ForwardInv",
+           "PrimaiteModel.Props.C08Addressee"]
 EXE = "drv_c08"
 
 
@@ -136,6 +137,10 @@ def _run_net(ctx: Ctx):
         model = [rnet.canon_model_answer(out[p]) for p in pos]
         ctx.cov["traces_validated_against_impl"] += 1
         notes = case.get("notes", {})
+        ctx.count("net-hypotheses-of-arp-sound-theorem:" + out[pos[0] - 1])
+        for key in ("via_host", "gw_is_host"):
+            if notes.get(key):
+                ctx.count("net-misconfig:" + key)
         ctx.count(f"net-routers:{notes.get('routers')}")
         ctx.count(f"net-routing:{notes.get('routing')}")
         nontrivial = False
